@@ -307,6 +307,30 @@ func runC13Curve(c *h.Ctx, cv curveT) {
 				c.Violation("every ASN.1 signature the fork produces verifies under crypto/ecdsa and here", map[string]any{"curve": name, "digest": h.Hex(digest), "sig": h.Hex(sigA)})
 			}
 			c13VerifyASN1(c, name+":asn1:fork-signature", cv, pub, digest, sigA)
+			// the accepted signature, digest and (r, s) edited IN PLACE between verifications (the buffers a server reuses
+			// for the next message): a verdict memo that keeps the caller's slice or *big.Int compares the edit with itself
+			if len(sigA) > 8 && len(digest) > 0 {
+				for _, pos := range []int{len(sigA) - 1, len(sigA) / 2} {
+					sigA[pos] ^= 0x01
+					c13VerifyASN1(c, name+":asn1:edited-in-place-after-accept", cv, pub, digest, sigA)
+					sigA[pos] ^= 0x01
+					c13VerifyASN1(c, name+":asn1:restored-in-place", cv, pub, digest, sigA)
+				}
+				digest[0] ^= 0x80
+				c13VerifyASN1(c, name+":asn1:digest-edited-in-place-after-accept", cv, pub, digest, sigA)
+				c13Verify(c, name+":sign:digest-edited-in-place-after-accept", cv, pub, digest, r, s)
+				digest[0] ^= 0x80
+				c13VerifyASN1(c, name+":asn1:restored-in-place", cv, pub, digest, sigA)
+				var got, want bool
+				h.Protect(func() { got = ecdsa.Verify(pub, digest, r, s) }) // accepted with the caller's own r, s ...
+				s.Add(s, big.NewInt(1))                                     // ... then s changed in place
+				pan, _ := h.Protect(func() { got = ecdsa.Verify(pub, digest, r, s) })
+				want = stdecdsa.Verify(&stdSk.PublicKey, digest, r, s)
+				if pan || got != want {
+					c.Violation("Verify returns the standard library's verdict after s was changed in place", map[string]any{"curve": name, "digest": h.Hex(digest), "r": r.String(), "s": s.String(), "fork": got, "std": want})
+				}
+				s.Sub(s, big.NewInt(1))
+			}
 			r2, s2, _ := stdecdsa.Sign(crand.Reader, stdSk, digest)
 			c13Verify(c, name+":sign:std->fork", cv, pub, digest, r2, s2)
 			if !ecdsa.Verify(pub, digest, r2, s2) {
